@@ -168,6 +168,9 @@ def lazy_program(rnd, own_link=False, nlabels=4, nstmts=14):
     defs.append(const("d", bin_("-", sym(b), sym(a))))                 # label difference
     if rnd.random() < 0.5:
         defs.append(const("e", bin_("+", sym("d"), num(2))))
+    # a factor that is itself held back: f = g, g = 2 (in either order), used as  d * f  and  f * d
+    defs.append(const("f", sym("g")))
+    defs.append(const("g", num(rnd.choice([1, 2, 3]))))
     body = []
     li = 0
     for _ in range(nstmts):
@@ -187,8 +190,10 @@ def lazy_program(rnd, own_link=False, nlabels=4, nstmts=14):
             body.append(insn("movi", bin_("-", L(), sym("x"))))
         elif r < 0.72:
             body.append(insn("movi", bin_("-", sym("x"), L())))
-        elif r < 0.78:
+        elif r < 0.75:
             body.append(word(bin_("-", num(10), sym("d")), bin_("*", num(3), sym("d"))))
+        elif r < 0.78:
+            body.append(word(bin_("*", sym("d"), sym("f")), bin_("*", sym("f"), bin_("-", sym(b), sym(a)))))
         elif r < 0.84:
             body.append(insn("movr", rnd.choice([L(), sym("x")])))
         elif r < 0.90:
@@ -206,7 +211,9 @@ def lazy_program(rnd, own_link=False, nlabels=4, nstmts=14):
     if own_link:
         K = num(rnd.choice([1024, 8192, 16384]))
         forms = [K, bin_("-", K, sym("d")), bin_("+", K, bin_("-", sym(b), sym(a))), bin_("-", bin_("-", bin_("+", K, bin_("*", num(2), sym(b))), sym(a)), sym(a)),
-                 bin_("+", K, bin_("-", sym("x"), sym(a))), bin_("-", K, bin_("+", sym("d"), sym("d")))]
+                 bin_("+", K, bin_("-", sym("x"), sym(a))), bin_("-", K, bin_("+", sym("d"), sym("d"))),
+                 bin_("+", K, bin_("*", bin_("-", sym(b), sym(a)), sym("f"))), bin_("-", K, bin_("*", sym("f"), sym("d"))),
+                 bin_("+", K, bin_("*", sym("d"), sym("f")))]
         pos = rnd.choice([0, len(body) // 2, len(body)])
         body.insert(pos, {"k": "link", "e": rnd.choice(forms)})
     return [body]
